@@ -1,4 +1,4 @@
-import NitroVerif.Lemmas.OptResult
+import NitroVerif.Lemmas.OptSpell
 import NitroVerif.Model.Opt
 import NitroVerif.Spec.Opt
 import NitroVerif.Lemmas.Opt
@@ -106,5 +106,37 @@ theorem parsed_positionals (d : Decl) (hn : (allNames d).Nodup) (env : Env) (arg
   simp only [Option.some.injEq] at hex'
   subst hex'
   exact (interp_ok_inv d env items r hi).2.1
+
+
+/-- **Every spelling parses to the assignment it spells.**  For every consistent declaration with
+distinct names, every environment and every *canonical* item list — option-like items that name
+declared options of the right kind by their long name or their letter, with `--name v`, `--name=v`,
+`-s v`, `-s=v`, `--toggle`, `--no-toggle`, bundles `-abc` of toggle letters, in any order and any
+interleaving; positionals that are value tokens before the cut; anything at all after `--` (or after
+the first positional in greedy mode) — the tokens `render` writes for it parse to exactly the
+interpretation of that item list. -/
+theorem every_spelling_parses_as_meant (d : Decl) (hn : (allNames d).Nodup) (hc : consistent d = true)
+    (env : Env) (items : List Item) (h : CanonGo d false items) :
+    parse d env (render d items) = interp d env items :=
+  parse_render_canon d hn hc env items h
+
+/-- two canonical spellings of the same assignment parse alike -/
+theorem spellings_agree (d : Decl) (hn : (allNames d).Nodup) (hc : consistent d = true) (env : Env)
+    (a b : List Item) (ha : CanonGo d false a) (hb : CanonGo d false b)
+    (hv : ∀ n, cliValues n a = cliValues n b)
+    (hp : ∀ t ∈ d.togs, posCount t a = posCount t b ∧ negCount t a = negCount t b)
+    (hpos : positionalsOf a = positionalsOf b) :
+    parse d env (render d a) = parse d env (render d b) := by
+  rw [parse_render_canon d hn hc env a ha, parse_render_canon d hn hc env b hb]
+  exact interp_depends_only_on_assignment d env a b hv hp hpos
+
+/-- the hypotheses are satisfiable: `-o f -vv x -- -y` for an option `out`/`o` and a toggle `verbose`/`v` -/
+example : CanonGo ⟨[⟨['o','u','t'], some 'o', none, none, true⟩], [], [⟨['v','e','r'], some 'v', none, 0, false⟩], none, false⟩
+    false [.optSep ['o','u','t'] true ['f'], .togShort ['v', 'v'], .pos ['x'], .sep, .pos ['-', 'y']] := by
+  refine ⟨⟨by decide, ⟨⟨'o', ['u', 't'], rfl, by decide, by decide⟩, by decide⟩,
+    fun _ => ⟨'o', by decide, by decide, by decide⟩, by decide⟩, ?_⟩
+  refine ⟨⟨⟨'v', ['v'], rfl, by decide, by decide⟩, by decide, by decide⟩, ?_⟩
+  refine ⟨by decide, ?_⟩
+  exact ⟨⟨_, rfl⟩, trivial⟩
 
 end NitroVerif.Props.C02
